@@ -390,9 +390,48 @@ theorem sortStable_of_pairwise {le : α → α → Bool} {l : List α} (h : l.Pa
 theorem sortBy_perm (key : AgentS → Int) (asc : Bool) (l : List AgentS) : (sortBy key asc l).Perm l := by
   unfold sortBy; split <;> exact sortStable_perm _ _
 
+theorem filterMap_getElem?_range (l : List α) : (List.range l.length).filterMap (l[·]?) = l := by
+  induction l with
+  | nil => rfl
+  | cons x l ih =>
+    rw [List.length_cons, List.range_succ_eq_map, List.filterMap_cons]
+    simp only [List.getElem?_cons_zero, List.filterMap_map]
+    congr 1
+
+/-- picking existing positions: the `j`-th item picked is the one at the `j`-th position named -/
+theorem filterMap_getElem?_pick (l : List α) : ∀ (p : List Nat), (∀ i ∈ p, i < l.length) →
+    (p.filterMap (fun i => l[i]?)).length = p.length ∧
+    ∀ j : Nat, (p.filterMap (fun i => l[i]?))[j]? = (p[j]?).bind (fun i => l[i]?) := by
+  intro p
+  induction p with
+  | nil => intro _; exact ⟨rfl, fun j => by simp⟩
+  | cons i p ih =>
+    intro h
+    have hi : i < l.length := h i (by simp)
+    obtain ⟨h1, h2⟩ := ih (fun k hk => h k (by simp [hk]))
+    have e : (i :: p).filterMap (fun i => l[i]?) = l[i] :: p.filterMap (fun i => l[i]?) := by
+      simp [List.getElem?_eq_getElem hi]
+    rw [e]
+    refine ⟨by simp [h1], fun j => ?_⟩
+    cases j with
+    | zero => simp [List.getElem?_eq_getElem hi]
+    | succ j => simpa using h2 j
+
+/-- a drawn permutation of the positions rearranges the list -/
+theorem perm_filterMap_getElem? {p : List Nat} {l : List α} (h : isPermOfRange p l.length = true) :
+    (p.filterMap (l[·]?)).Perm l := by
+  have hp : p.Perm (List.range l.length) := List.isPerm_iff.mp h
+  have := hp.filterMap (l[·]?)
+  rwa [filterMap_getElem?_range] at this
+
 /-- an in-place reordering rearranges `model.agents` and does nothing else to it -/
 theorem reorderList_perm (k : ReKind) (l : List AgentS) : (reorderList k l).Perm l := by
   cases k with
+  | perm p =>
+    simp only [reorderList]
+    split
+    · rename_i h; exact perm_filterMap_getElem? h
+    · exact .refl _
   | rev => exact List.reverse_perm l
   | rot =>
     simp only [reorderList]
